@@ -20,8 +20,8 @@ i) flow accounting cannot kill a stream: in FlowMetrics no *unsigned* atomic cou
 f) run_worker_loop awaits on_store inline (no spawn) before the next recv.
 Not decided: the window between publication and release of the passive copy (cross-task atomicity), aggregates not being de-duplicated.
 """
-FLOOR = 17
-REQUIRED = ["C03.a", "C03.b1", "C03.b2", "C03.b3", "C03.c", "C03.d", "C03.e1", "C03.e2", "C03.f", "C03.g", "C03.h", "C03.i", "C03.j", "C03.k", "C03.l", "C03.m"]
+FLOOR = 18
+REQUIRED = ["C03.a", "C03.b1", "C03.b2", "C03.b3", "C03.c", "C03.d", "C03.e1", "C03.e2", "C03.f", "C03.g", "C03.h", "C03.i", "C03.j", "C03.k", "C03.l", "C03.m", "C03.n"]
 FLUSH_TASK = "engine::core::write::flush_worker::FlushWorker::run::{closure#0}::{closure#0}"
 
 
@@ -425,6 +425,25 @@ def run(ctx):
             bad.append(("snapshot-skips-non-empty-buffer", "PassiveBufferSet::non_empty can leave a buffer out of the read snapshot without having seen that it is empty (e.g. because its mutex is held by another reader): the rows of a rotation that is not yet on disk are invisible to that read", w))
         return bad
     ctx.run("C03.m", "K9 LOOP", "PassiveBufferSet::non_empty", "the read snapshot leaves a passive buffer out only when it is empty", m_)
+
+    def n_(inst):
+        # a segment that is still being flushed gets its column files one after another: its zones may be read only once
+        # the file written last exists (until then the passive buffer serves the rows)
+        h = F.fn("ZoneHydrator::hydrate")
+        base = h.key.split("::{closure")[0]
+        fam = [F.fn_exact(k) for k in F.keys() if k.startswith(base + "::{closure")]
+        runner = F.fn("ZoneStepRunner::run") if F.find(r"ZoneStepRunner::run$") else None
+        infl = [fb for fb in fam if fb.find_calls(r"QueryPlan::is_segment_inflight$")]
+        inst.sites = ["hydrate and %d closures; in-flight test in %d" % (len(fam), len(infl))]
+        ok = False
+        for fb in infl:
+            fam2 = [fb] + [F.fn_exact(k) for k in F.keys() if k.startswith(fb.key + "::{closure")]
+            if any(x.find_calls(r"Path::exists$|Path::try_exists$|Path::is_file$|fs::metadata$") for x in fam2):
+                ok = True
+        if not ok:
+            return [("inflight-zone-read-by-columns", "ZoneHydrator::hydrate loads the zones of a segment that is still being flushed without asking whether its last file is there: a column not yet written is an empty column, so rows come back torn (n: null, timestamp 0) or with invented ids during the flush", None)]
+        return []
+    ctx.run("C03.n", "K4 EFFECT", "ZoneHydrator::hydrate (in-flight segments)", "a zone of a segment in flight is hydrated only when it is complete on disk", n_)
 
 
     def i_(inst):
